@@ -3,13 +3,13 @@ from facts import walk, callee_of, call_args, loc
 import sem, hirq, anchors, absx
 from shapes import *
 
-EXPLANATION = ("Encoders: every `From<X> for RawControl` / `From<X> for Exop` is abstractly evaluated (all paths) and the OID constant, "
+EXPLANATION = ("Encoders: every `From<X> for RawControl` / `From<X> for Exop` is abstractly evaluated once per member of the finite partition of its input - every Option field of X Some / None x every bool field true / false, all combinations, the fields fixed to variant / literal knowledge - (all paths of each member) and the OID constant, "
                "the default criticality and the ASN.1 shape of the encoded value - with the struct field feeding each slot and the "
                "presence condition of each optional element - are compared with the defining RFC (2696, 4533, 4527, 4528, 3876, 4370, "
                "5805, 3296, 3062, 4532, 4511, draft relax); CriticalControl sets criticality on the wrapped control's own encoding. "
                "Decoders: PagedResults, SyncState, SyncDone, parse_syncinfo, ReadEntryResp, PasswordModifyResp, WhoAmIResp, StartTxnResp - "
                "which child ordinal / tag feeds which field, required class/tag checks, the EntryState and SyncInfo choice tables and the "
-               "RFC 4533 defaults (refreshDone TRUE, refreshDeletes FALSE). Integer fields of response values (PagedResults size, the SyncState ENUMERATED): the decoder is interpreted with the component's content octets fixed to literal strings of every length 0..12 (distinct, high-bit, all-ones, zero-padded) and the field must be the big-endian value modulo the cast to the field's type - whichever function reads the octets (parse_uint, a local helper, a loop in place). Y.opaque-octets-total: a component its RFC defines as opaque octets (transaction identifier, generated password, cookies, UUIDs) is decoded by a total function - a decoder that applies a UTF-8 test has a returning path for the test failing. Y.optional-absent: for every OPTIONAL / DEFAULT component of a response value's RFC shape the decoder has a returning path on which the cursor read at that position was not taken to have yielded an element (a read whose None flows into expect / unwrap leaves no such path). Envelope (Z13/Z14 encoder, Z.* decoder; the same rule functions as C02 S13/S14 and C03 T3): a control list is encoded as [0]{SEQ{OCTET type, BOOLEAN TRUE only-if critical, OCTET value only-if present}*} and decoded per control in *any* position of the list (loop-carried state included) as child 0 -> type, BOOLEAN -> criticality = content != 0, absent criticality -> false, absent value -> None. "
+               "RFC 4533 defaults (refreshDone TRUE, refreshDeletes FALSE). Integer fields of response values (PagedResults size, the SyncState ENUMERATED): the decoder is interpreted with the component's content octets fixed to literal strings of every length 0..12 (distinct, high-bit, all-ones, zero-padded) and the field must be the big-endian value modulo the cast to the field's type - whichever function reads the octets (parse_uint, a local helper, a loop in place). Y.opaque-octets-total: a component its RFC defines as opaque octets (transaction identifier, generated password, cookies, UUIDs) is decoded by a total function - a decoder that applies a UTF-8 test has a returning path for the test failing. Y.optional-absent: for every OPTIONAL / DEFAULT component of a response value's RFC shape the decoder has a returning path on which the cursor read at that position was not taken to have yielded an element (a read whose None flows into expect / unwrap leaves no such path). Envelope (Z13/Z14 encoder, Z.* decoder; the same rule functions as C02 S13/S14 and C03 T3): for every member of the partition control list Some / None x criticality true / false x value Some / None a control list is encoded as [0]{SEQ{OCTET type, BOOLEAN TRUE only-if critical, OCTET value only-if present}*} and decoded per control in *any* position of the list (loop-carried state included) as child 0 -> type, BOOLEAN -> criticality = content != 0, absent criticality -> false, absent value -> None. "
                "Not decided: byte-level equality of arbitrary cookies; lber's serialisation (C07).")
 TRUSTED = ['lber serialisation of a shape (C07)', 'RFC tables transcribed in this module']
 UNDECIDED = ['byte-level equality of arbitrary field contents', 'EndTxnResp (not in the property\'s list of response values)']
@@ -184,11 +184,58 @@ def check_int_field(ctx, f, B, rule, inst, ordinal, struct_path, field):
             % (ty, len(vecs), len(wrong), ', all of them with an octet >= 0x80' if wrong and len(high) == len(wrong) else '', ty, wrong[:4]))
     return reads
 
+def check_encoded(ctx, B, short, kind, oid, crit, spec, o, pc, cname):
+    """One returning path `o` of an encoder, evaluated for one member of its input partition: `pc` is the member stated as
+    path-condition atoms followed by the path's own conditions (those on the fields that are not partitioned: the refresh mode)."""
+    v = o.val
+    if v[0] != 'struct':
+        ctx.fail('X.encoder-result', short, loc(B.root), 'encoder does not return a struct literal: %s' % absx.fmt(v)[:60]); return
+    fl = dict(v[2])
+    name = fl.get('ctype') if kind == 'ctl' else fl.get('name')
+    if kind == 'exop':
+        name = name[2][0] if name and name[0] == 'ctor' and name[1] == 'Some' else ('unk',)
+    if oid is not None:
+        ctx.add('X.oid', short, loc(B.root), name == ('lit', oid), 'OID is %s, the defining RFC says %s' % (absx.fmt(name), oid))
+    else:
+        ctx.add('X.oid', short, loc(B.root), F('pr', '0', 'oid')(name, {}), 'OID does not come from the ReadEntry constructed by new()')
+    if kind == 'ctl':
+        ctx.add('X.criticality', short, loc(B.root), fl.get('crit') == ('lit', crit), 'default criticality is %s, expected %s' % (absx.fmt(fl.get('crit', ('unk',))), crit))
+    val = fl.get('val', ('unk',))
+    own = ','.join(('' if t else '!') + absx.fmt(a)[:24] for a, t in o.st.pc)[:80]
+    inst = '%s|%s' % (short, cname + ('; ' + own if own else ''))
+    if spec == NONE:
+        ctx.add('X.value', inst, loc(B.root), val == ('ctor', 'None', ()), 'value must be absent, found %s' % absx.fmt(val)[:60])
+    elif isinstance(spec, tuple) and spec[0] == RAW:
+        ok = val[0] == 'ctor' and val[1] == 'Some' and spec[1](val[2][0], {})
+        ctx.add('X.value', inst, loc(B.root), ok, 'value must be the raw bytes of the field, found %s' % absx.fmt(val)[:60])
+    else:
+        if short.startswith('passmod') and val == ('ctor', 'None', ()):
+            # RFC 3062: the whole requestValue is omitted when no field is given
+            none3 = all(is_some_pc(F('pm', n))(pc) is False for n in ('user_id', 'old_pass', 'new_pass'))
+            ctx.add('X.value', inst, loc(B.root), none3, 'requestValue omitted although a field is present')
+            return
+        # the whole encoded buffer: `buf[..]` (any spelling of the copy) or the buffer itself
+        ok = val[0] == 'ctor' and val[1] == 'Some' and val[2][0][0] == 'index' and val[2][0][1][0] == 'encoded' and val[2][0][2][0] == 'struct' and val[2][0][2][1].endswith('RangeFull')
+        enc = val[2][0][1] if ok else None
+        if not ok and val[0] == 'ctor' and val[1] == 'Some' and val[2][0][0] == 'encoded':
+            ok, enc = True, val[2][0]
+        if not ok:
+            ctx.fail('X.value', inst, loc(B.root), 'value is not Some(<whole encoded buffer>): %s' % absx.fmt(val)[:80]); return
+        und = undecided_optionals(spec, pc)
+        if und:
+            # (cannot happen while every presence condition of the reference is a field of the partition: fail closed if it does)
+            ctx.fail('X.value', inst, loc(B.root), 'the presence of %s is not decided for this member of the input partition' % ', '.join(und)); return
+        env = {'elems': [], 'pc': pc}
+        mism = compare(to_shape(enc[1]), spec, pc, env)
+        ctx.add('X.value', inst, loc(B.root), not mism, ('for a value with %s: ' % cname) + ('; '.join(mism)[:400] or 'matches the RFC'))
+        if not mism and spec[0] == 'C':
+            return {(r[3], r[1](pc)) for r in spec[3] if r[0] == 'OPT'}
+
 def run(ctx):
     f = ctx.facts
     # ------------------------------------------------------------------ encoders
     froms = [p for p in f.hir if p.endswith('::from') and 'core::convert::From<' in p and ('for ldap3::controls_impl::RawControl' in p or 'for ldap3::exop_impl::Exop' in p)]
-    done = 0
+    done = ncases = 0
     for sub, kind, oid, crit, spec in ENCODERS:
         cands = [p for p in froms if sub in p]
         if len(cands) != 1:
@@ -196,60 +243,38 @@ def run(ctx):
         p = cands[0]
         B = hirq.Body(f, f.hir[p])
         ctx.analysed['bodies'].add(p)
-        outs = [o for o in absx.Interp(f, B, unroll=1, inline=inline_policy, for_once=True, combinators=True).run() if o.kind in ('val', 'ret')]
         short = sub.split('>')[0].split('<')[0]
-        ctx.add('X.encoder-paths', short, loc(B.root), len(outs) >= 1, 'no returning path')
+        # the finite partition of the encoder's input: every Option field Some / None, every bool field true / false (all
+        # combinations - the presence conditions of an RFC's OPTIONAL / DEFAULT components are independent of each other); the encoder
+        # is interpreted once per member with those fields fixed, and what it emits is compared with the RFC shape of that member
+        pdefs = [d for d in B.defs.values() if d['kind'] == 'param']
+        pty = f.hir[p]['params'][0].get('ty') if len(f.hir[p]['params']) == 1 else None
+        fields = partition_fields(f, pty) if pty else None
+        if fields is None:
+            ctx.fail('X.encoder-input', short, loc(B.root), 'the value being encoded is not a struct whose fields can be read (%s)' % pty); continue
+        # (a parameter the signature does not bind - `_: StartTxn` - is never read: any name will do)
+        base = ('param', '#0') if not pdefs else ('param', pdefs[0]['name']) if not pdefs[0]['proj'] else ('param', '#%d' % pdefs[0]['idx'])
+        cases = partition_cases(fields)
+        ncases += len(cases)
         seen_opt = set()
-        all_none = True
-        for o in outs:
-            v = o.val
-            if v[0] != 'struct':
-                ctx.fail('X.encoder-result', short, loc(B.root), 'encoder does not return a struct literal: %s' % absx.fmt(v)[:60]); continue
-            fl = dict(v[2])
-            name = fl.get('ctype') if kind == 'ctl' else fl.get('name')
-            if kind == 'exop':
-                name = name[2][0] if name and name[0] == 'ctor' and name[1] == 'Some' else ('unk',)
-            if oid is not None:
-                ctx.add('X.oid', short, loc(B.root), name == ('lit', oid), 'OID is %s, the defining RFC says %s' % (absx.fmt(name), oid))
-            else:
-                ctx.add('X.oid', short, loc(B.root), F('pr', '0', 'oid')(name, {}), 'OID does not come from the ReadEntry constructed by new()')
-            if kind == 'ctl':
-                ctx.add('X.criticality', short, loc(B.root), fl.get('crit') == ('lit', crit), 'default criticality is %s, expected %s' % (absx.fmt(fl.get('crit', ('unk',))), crit))
-            val = fl.get('val', ('unk',))
-            sig = ','.join(('' if t else '!') + absx.fmt(a)[:24] for a, t in o.st.pc)[:80] or 'plain'
-            if spec == NONE:
-                ctx.add('X.value', '%s|%s' % (short, sig), loc(B.root), val == ('ctor', 'None', ()), 'value must be absent, found %s' % absx.fmt(val)[:60])
-            elif isinstance(spec, tuple) and spec[0] == RAW:
-                ok = val[0] == 'ctor' and val[1] == 'Some' and spec[1](val[2][0], {})
-                ctx.add('X.value', '%s|%s' % (short, sig), loc(B.root), ok, 'value must be the raw bytes of the field, found %s' % absx.fmt(val)[:60])
-            else:
-                if short.startswith('passmod') and val == ('ctor', 'None', ()):
-                    # RFC 3062: the whole requestValue is omitted when no field is given
-                    none3 = all(is_some_pc(F('pm', n))(o.st.pc) is False for n in ('user_id', 'old_pass', 'new_pass'))
-                    ctx.add('X.value', '%s|%s' % (short, sig), loc(B.root), none3, 'requestValue omitted although a field is present')
-                    continue
-                all_none = False
-                # the whole encoded buffer: `buf[..]` (any spelling of the copy) or the buffer itself
-                ok = val[0] == 'ctor' and val[1] == 'Some' and val[2][0][0] == 'index' and val[2][0][1][0] == 'encoded' and val[2][0][2][0] == 'struct' and val[2][0][2][1].endswith('RangeFull')
-                enc = val[2][0][1] if ok else None
-                if not ok and val[0] == 'ctor' and val[1] == 'Some' and val[2][0][0] == 'encoded':
-                    ok, enc = True, val[2][0]
-                if not ok:
-                    ctx.fail('X.value', '%s|%s' % (short, sig), loc(B.root), 'value is not Some(<whole encoded buffer>): %s' % absx.fmt(val)[:80]); continue
-                env = {'elems': [], 'pc': o.st.pc}
-                mism = compare(to_shape(enc[1]), spec, o.st.pc, env)
-                ctx.add('X.value', '%s|%s' % (short, sig), loc(B.root), not mism, '; '.join(mism)[:400] or 'matches the RFC')
-                if spec[0] == 'C':
-                    for r in spec[3]:
-                        if r[0] == 'OPT':
-                            seen_opt.add((r[3], r[1](o.st.pc)))
+        for case in cases:
+            hook = CaseHook(lambda b, base=base: b == base, case)
+            I = absx.Interp(f, B, unroll=1, inline=inline_policy, for_once=True, combinators=True, field_hook=hook)
+            outs = [o for o in I.run(env=hook.env(I.param_env())) if o.kind in ('val', 'ret')]
+            cname = case_name(case)
+            ctx.add('X.encoder-paths', '%s|%s' % (short, cname), loc(B.root), len(outs) >= 1, 'no returning path for a value with %s' % cname)
+            for o in outs:
+                seen_opt |= check_encoded(ctx, B, short, kind, oid, crit, spec, o, case_atoms(base, case) + o.st.pc, cname) or set()
         if isinstance(spec, tuple) and spec[0] == 'C':
+            # (implied by X.value holding on every member; kept as the statement that the partition reaches both sides of every
+            # optional element: a struct that lost the field which decides an element's presence has no member on one side)
             for r in spec[3]:
                 if r[0] == 'OPT':
                     ctx.add('X.optional-both-ways', '%s|%s' % (short, r[3]), loc(B.root), (r[3], True) in seen_opt and (r[3], False) in seen_opt,
                             'optional element %s is not both present and absent depending on its field' % r[3])
         done += 1
     ctx.floor('X', 'encoders', done, 15)
+    ctx.floor('X', 'members of the encoders\' input partitions evaluated', ncases, 26)
     for p, oid in READ_ENTRY_OIDS.items():
         B = hirq.Body(f, f.body(p))
         ctx.analysed['bodies'].add(p)
